@@ -13,17 +13,22 @@ from harness.common import Ck, REPO, coq_list, parse_coq_N_list
 from harness import c20_util as U
 from translate import c20_formats as T
 from translate import c20_keytables as KT
+from translate import c20_quant as TQ
 
 MANIFEST = dict(
     technique='Rocq proof (byte-level codec round trips: Hammer command sequences, the scenes.image container driven by a configuration '
               'regenerated from choreo.py incl. string-pool construction and sort site, binary choreo scenes as layouts with a round-trip '
-              'theorem for every layout; quoted-field lexing for the text writers; field splitting of SMD lines; the scene summary) + five '
+              'theorem for every layout; quoted-field lexing for the text writers; field splitting of SMD lines; the scene summary) + seven '
               'fail-closed ast translators (struct formats with the value each field carries on both sides, sort and version sites, line / '
               'field templates, operator-stack census with the version-2 test of Sound.export, the VMT quoting decision table and file '
               'frame, width paths of every binary writer/reader pair; all normalise before matching: struct spellings, helper functions, '
-              'early returns, locals) + vm_compute correspondence on eight models (two exhaustive on a small scope) + round-trip / '
-              'second-generation / observer-effect oracle search on all eight writers',
-    text='Theorems in Props/C20.v (62): cmdseq.parse(cmdseq.write(v)) = v and byte-identical second generation for every configuration '
+              'early returns, locals; round 4: the keyed tables of the writers -- dict / set / find_or_insert / DeferredWrites keys, '
+              'for an object key the attributes its class compares in __eq__ / __ne__ / __hash__ -- with the key each reader stores its '
+              'result under, and the quantisation sites of binary scenes) + vm_compute correspondence on ten models (two exhaustive on a '
+              'small scope; the quantisation model runs on the kernel\'s binary64 floats) + round-trip / second-generation / '
+              'observer-effect oracle search on all eight writers with names that collide under casefold / strip, repeated names and '
+              'deep-copied values; every call into the implementation under a time limit',
+    text='Theorems in Props/C20.v (75): cmdseq.parse(cmdseq.write(v)) = v and byte-identical second generation for every configuration '
          'satisfying the obligations regenerated from cmdseq.py; the scenes.image writer over the configuration regenerated from choreo.py '
          'produces the bytes of the container model for both input forms whatever the dict keys are, parses back (header, pool through '
          'the offset table, CRC-sorted table, v2/v3 summaries, blobs; LZMA as a hypothesis pair), its table is sorted by the stored '
@@ -45,7 +50,16 @@ MANIFEST = dict(
          'Sound.export, regenerated as self-delimiting items, is lexed back as exactly its keywords and field values for all field values '
          '(quoted raw fields without quote / backslash / line break, bare fields bare words); SMD: conversions never touch and every data line splits at whitespace into exactly its fields; '
          'Entry.from_scene: last-speak <= duration, sounds strictly sorted with exactly the used sounds, order independence. '
-         'cmdseq, scenes.image (container, pool+sort), binary scene layout, scene summary, soundscript stacks (all 128 small states x '
+         'Round 4: every de-duplicating table of a writer (SMD bone numbers through dict[Bone, int], the scenes.image string pool, particle '
+         'systems by name, scenes.image slots) is C11\'s find-or-insert table with the key read from the source -- for Bone from its '
+         'comparison methods -- and for every census passing the per-table boolean the record found under the number handed out for an '
+         'object is that object\'s (refuted: Bone compared through name.casefold(), a pool keyed by the casefolded string, a particle '
+         'table keyed more coarsely than the reader keys systems; a hash that is finer than __eq__); the nodes section of Mesh.export '
+         '(dict.fromkeys, passes numbering a bone once its parent is numbered, ValueError without progress) is read back by the '
+         'line-by-line reader as exactly the (name, parent name) records of the bones, each once, whatever the dict order; every stored '
+         'value of a quantised binary-scene field (all 256 byte values for factor 255, all 65536 values for absolute tags) is read as a '
+         'float that min(MAX, max(0, round(v * FACTOR))) writes back as the same field, in IEEE binary64 as evaluated by the kernel. '
+         'cmdseq, scenes.image (container, pool+sort), binary scene layout, SMD bone numbering, tag quantisation, scene summary, soundscript stacks (all 128 small states x '
          'histories of lazy reads) and VMT quoting (all strings of length <= 2 over 25 characters, parameter lines, whole files) models '
          'are compared with the implementation byte for byte / value for value on every run. All eight writers are searched: generated values inside each format\'s alphabet, '
          'write -> read -> equal, write again -> identical, the same with every (lazy) property of the value read first or the value '
@@ -54,8 +68,9 @@ MANIFEST = dict(
          '(the float32 / byte quantisation of values and the Python objects behind the raw fields are outside the model), quoted fields of '
          'the text writers at tokenizer level, soundscript operator stacks at the level of which blocks exist with which children, VMT '
          'files of parameter-only materials at token level (quoted strings without backslash; blocks / proxies and what Material.parse '
-         'builds from the tokens are searched), SMD data lines at word level; soundscript / PCF / SMD / choreo text whole-file round '
-         'trips are decided by search only. Trusted: Coq kernel + vm_compute, translate/c20_formats.py, hand models '
+         'builds from the tokens are searched), SMD data lines at word level and the nodes section as a whole (skeleton / triangle '
+         'sections refer to bones through the same table; their numeric text is searched), quantised fields on stored values (other '
+         'values: correspondence); soundscript / PCF / choreo text whole-file round trips are decided by search only. Trusted: Coq kernel + vm_compute (incl. its primitive binary64 floats), translate/c20_formats.py, c20_keytables.py, c20_quant.py, hand models Fmt/SmdNumber.v, Fmt/ChoreoQuant.v, '
          'Fmt/CmdSeq.v, Fmt/ScenesImage.v, Fmt/ChoreoBin.v layouts, Fmt/SceneSummary.v, Fmt/SndStacks.v, Fmt/VmtQuote.v (each tied by differential runs; the layouts also by '
          'kernel-checked path equality with the generated paths), the tokenizer model KV/KvLex.v of C01, CPython struct/lzma/zlib.crc32. '
          'Known finding: text VCD flex-animation blocks are written but the reader raises NotImplementedError.',
@@ -133,7 +148,8 @@ def tie_families(tie: str) -> set[str]:
                      ('ScenesImg_gen', ('scenes-image',)), ('scene summary', ('scenes-image',)), ('soundscript', ('sndscript',)),
                      ('VMT', ('vmt',)), ('binary choreo', ('vcd-binary',)), ('ChoreoBin_gen', ('vcd-binary',)),
                      ('TextFields_gen', ('sndscript', 'vmt', 'vcd-text')),
-                     ('KeyTables_gen', ('smd', 'pcf', 'scenes-image', 'cmdseq'))):
+                     ('KeyTables_gen', ('smd', 'pcf', 'scenes-image', 'cmdseq')), ('QuantSites_gen', ('vcd-binary',)),
+                     ('quantisation', ('vcd-binary',))):
         if word in tie:
             fams.update(fs)
     return fams or {'*'}
@@ -1265,6 +1281,88 @@ def corr_smd_number(ck: Ck):
         ck.extra['smd_number_disagreement'] = cases[bad[0]][1]
 
 
+# ================================================================================================ quantised fields
+
+def _mant_exp(v: float) -> tuple[int, int]:
+    """v = m * 2^e exactly, 0 <= m < 2^53 (v >= 0 finite)."""
+    import math
+    if v == 0:
+        return 0, 0
+    fr, ex = math.frexp(v)
+    m = int(fr * 2 ** 53)
+    assert m * 2.0 ** (ex - 53) == v
+    return m, ex - 53
+
+
+def corr_quant(ck: Ck):
+    """Fmt/ChoreoQuant.v `quant` / `dequant` over the regenerated sites vs Tag / AbsoluteTag.export_binary and parse_binary on
+    arbitrary values: random ones, exact ties (k + 1/2) / FACTOR and their float neighbours, grid values."""
+    import math
+    from srctools.choreo import Tag, AbsoluteTag
+    rng = ck.rng
+    cases: list[tuple[str, dict]] = []
+    for _ in range(bud(ck, ('vcd-binary',), 150, 2000)):
+        cls = rng.choice([Tag, Tag, AbsoluteTag])
+        fac, mx = cls._FACTOR, cls._MAX
+        top = 1.0           # AbsoluteTag is not re-decorated with attrs.define: Tag's validator (<= 1.0) is the one in force
+        kmax = int(top * fac)
+        r = rng.random()
+        k = rng.randrange(kmax)
+        if r < 0.3:
+            v = rng.random() * top
+        elif r < 0.55:
+            v = (k + 0.5) / fac
+        elif r < 0.8:
+            v = math.nextafter((k + 0.5) / fac, rng.choice([0.0, 2.0 * top]))
+        else:
+            v = rng.randrange(kmax + 1) / fac
+        v = min(top, max(0.0, v))
+        ck.count('corr_quant')
+        try:
+            f = io.BytesIO()
+            cls.export_binary(f, lambda s_: 0, [cls('n', v)])
+            data = f.getvalue()
+            field = struct.unpack(cls._FMT.format, data[1:])[1]
+            back = cls.parse_binary(io.BytesIO(data), ['n'], False)[0].value
+            got = f'Some ({field}, {"(%d, %d)" % _mant_exp(back)})'
+        except Exception as e:
+            got = 'None'
+            ck.extra.setdefault('quant_exception', repr(e)[:200])
+        m, e = _mant_exp(v)
+        lit = f'("{cls.__name__}#1"%string, ({m}, {e}), {got})'
+        ck.seen(('quant', cls.__name__, v))
+        ck.hist('corr_quant', cls.__name__ + (':tie' if (v * fac) % 1 == 0.5 else ''))
+        cases.append((lit, {'class': cls.__name__, 'value': v, 'written_and_read': got}))
+    pre = ('Require Import Coq.ZArith.ZArith. Require Import Coq.Floats.Floats. Require Import Coq.Strings.String. Open Scope Z_scope.\n'
+           'Import ListNotations.\n'
+           'Fixpoint bad_idx {A} (f : A -> bool) (n : N) (l : list A) : list N := match l with [] => [] | x :: r => (if f x then [] else [n]) ++ bad_idx f (n + 1)%N r end.\n'
+           'Definition okq (c : string * (Z * Z) * option (Z * (Z * Z))) : bool :=\n'
+           '  let \'(n, (m, e), r) := c in let s := cq_site n in\n'
+           '  match quant s (mk_float false m e), r with\n'
+           '  | Some k, Some (fld, (mb, eb)) => (k =? fld) && PrimFloat.eqb (dequant s fld) (mk_float false mb eb)\n'
+           '  | _, _ => false end.\n')
+    jobs = []
+    for lo in range(0, len(cases), 500):
+        jobs.append((['Coq.Lists.List', 'Coq.NArith.NArith', 'Coq.Bool.Bool', 'SV.Fmt.ChoreoQuant', 'SV.Gen.QuantSites_gen'],
+                     ['bad_idx okq 0%N ' + coq_list(c for c, _ in cases[lo:lo + 500])], f'quant{lo}', pre))
+    bad: list[int] = []
+    for lo, vals in zip(range(0, len(cases), 500), (yield jobs)):
+        if vals is None:
+            ck.obligation('correspondence:vcd-binary-quantisation', False, 'model could not be evaluated')
+            ck.tie_broken.append('correspondence binary choreo quantisation: model evaluation failed')
+            return
+        bad += [lo + i for i in parse_coq_N_list(vals[0])]
+    ck.obligation('correspondence:vcd-binary-quantisation', not bad,
+                  f'{len(cases)} values (random, exact ties (k + 1/2) / FACTOR and their float neighbours, grid values) for Tag and AbsoluteTag: '
+                  f'quant / dequant (Fmt/ChoreoQuant.v, kernel floats) vs the field export_binary writes and the value parse_binary returns: '
+                  f'{len(bad)} disagreements')
+    if bad:
+        ck.tie_broken.append('correspondence binary choreo quantisation (Fmt/ChoreoQuant.v vs Tag.export_binary / parse_binary)')
+        ck.extra['quant_disagreement'] = cases[bad[0]][1]
+        ck.violation('vcd-binary:quantisation:' + cases[bad[0]][1]['class'], 'the field written for a tag value / the value read back is not '
+                     'min(MAX, max(0, round(value * FACTOR))) / (field / FACTOR)', {'format': 'vcd-binary-tag', **cases[bad[0]][1]})
+
+
 # ================================================================================================ keyed tables
 
 KT_FAMILY = {'smd': 'smd_', 'particles': 'pcf_', 'cmdseq': 'cmdseq_', 'sndscript': 'sndscript_', 'vmt': 'vmt_'}
@@ -1372,6 +1470,16 @@ def search_format(ck: Ck, name: str, n: int) -> None:
         if len(js) > 150:
             ck.seen((name, js))
         ck.hist('oracle_' + name, 'ok' if res is None else res[0])
+        if name in ('vcd-text', 'sndscript', 'vmt') and (res is None or res[0] == 'read-error'):
+            bb = U.brace_balance(fmt, spec)
+            if bb is not None:
+                key = f'{name}:{bb[0]}:{bb[1]}:{trigger(name, spec, ("read-error", "NotImplementedError", None))}'
+                if key not in found:
+                    def unbalanced(sp, kind=(bb[0], bb[1])):
+                        q = U.brace_balance(fmt, sp)
+                        return q is not None and (q[0], q[1]) == kind
+                    small = U.shrink_spec(spec, unbalanced, budget=150)
+                    found[key] = ((bb[0], bb[1]), small, U.brace_balance(fmt, small) or bb)
         if res is None or res[0] == 'build-error':
             if res is not None:
                 ck.count('generator_rejected_by_constructor')
@@ -1618,13 +1726,21 @@ def run(ck: Ck) -> None:
                '(cmdseq, scenes.image container, scenes.image pool+sort, binary scene layout, scene summary) are distinct by file bytes / spec '
                'and non-trivial when they contain a command / two entries / more than 60 bytes / two events; soundscript stack cases are '
                'the complete small scope (state x history), VMT quoting cases every string of length <= 2 over the delimiter alphabet, '
-               'parameter lines longer than 6 characters and whole files with at least two parameters')
+               'parameter lines longer than 6 characters and whole files with at least two parameters; every generator keeps a bag of the '
+               'strings used in the spec and re-uses them or derives variants that collide under casefold / strip (only blanks where the '
+               'format itself ignores case), a quarter of the SMD meshes are deep copies (equal but not identical Bone objects); skeleton '
+               'cases (children first, cycles, copies, foreign parents, several objects of one name) count when they have two bones, '
+               'quantisation cases are distinct by (class, value)')
     ck.trusted.append('hand-written models Fmt/CmdSeq.v, Fmt/ScenesImage.v, Fmt/ScenesImageCfg.v (writer over the generated configuration), '
                       'Fmt/ChoreoBin.v (layouts), Fmt/SceneSummary.v: tied by byte-exact / value-exact differential correspondence on every run; '
                       'the layouts additionally by kernel-checked equality of their width paths with the paths regenerated from choreo.py')
     ck.trusted.append('hand-written models Fmt/SndStacks.v (lazy operator stacks of Sound over the regenerated census) and Fmt/VmtQuote.v '
                       '(quoting decision, parameter line, file of a parameter-only material over the regenerated table): exhaustive small-scope / '
                       'generated differential correspondence with Sound.export / parse_one and vmt._needs_quotes / Material.export on every run')
+    ck.trusted.append('hand-written models Fmt/SmdNumber.v (bone numbering of Mesh.export and the line table of the reader) and Fmt/ChoreoQuant.v '
+                      '(round / clamp / divide on the kernel floats): differential correspondence with Mesh.export and Tag / AbsoluteTag.export_binary / '
+                      'parse_binary on every run; Fmt/BspDedup*.v (C11) for the find-or-insert table; WRITER_ITEM / READERS tables of '
+                      'translate/c20_keytables.py (which function is a writer / reader, which class a str-keyed table stands for)')
     ck.trusted.append('KV/KvLex.v (tokenizer model of C01) for the quoted-field theorems; the escape table is tied to tokenizer.py by C01')
     ck.trusted.append('CPython struct (float32 conversion of the version tag and of scene times), lzma and zlib.crc32 (outside the models)')
     ck.assumptions += [
@@ -1639,6 +1755,14 @@ def run(ck: Ck) -> None:
         'reading with and without escapes is the same; the bare-string loop is the same code for every Tokenizer configuration without '
         'the colon / plus operators (Material.parse uses none)',
         'scene summary: event times are non-negative float32 values (value * 1000.0 is then exact in double arithmetic)',
+        'keyed tables: what identifies an object in a format is taken from the key under which the reader stores its result (bones by '
+        'exact name, particle systems by casefolded name, scenes.image entries by checksum, pool strings by position); objects whose '
+        'identifying attributes are pairwise distinct (under the transformations the reader itself applies) are the representable values',
+        'SMD numbering model: bone names as codes (distinct names = distinct codes, computed by the check from the exact strings); the '
+        'skeleton / triangles sections refer to bones through the same table (bone_indexes) -- their numeric text is searched, not modelled',
+        'quantised fields: Coq primitive floats are the IEEE binary64 arithmetic of the machine (kernel primitive, same as CPython\'s '
+        'float multiply / divide; compared on every run); Tag.value is validated to [0, 1] (AbsoluteTag is not re-decorated, so Tag\'s '
+        'validator is the one in force)',
         'PCF: element UUIDs are fresh random values on every export (Particle has no UUID field); second-generation identity is checked with srctools.dmx.get_uuid replaced by a counter',
         'representable alphabets exclude: NUL / non-ASCII / over-long strings (cmdseq); quotes, comment starters and file extensions in SMD names; '
         'quote and backslash in soundscript strings; quote in VMT strings; single-link SMD vertices with weight != 1; '
@@ -1651,9 +1775,10 @@ def run(ck: Ck) -> None:
     ok4 = ck.translate('TextFields_gen', T.translate_text_writers)
     ok5 = ck.translate('ChoreoBin_gen', T.translate_choreo_bin)
     ok6 = ck.translate('KeyTables_gen', KT.translate_keytables)
+    ok7 = ck.translate('QuantSites_gen', TQ.translate_quant)
     built = ck.build(['Props/C20.vo'] + (['Gen/CmdSeqFmt_gen.vo'] if ok1 else []) + (['Gen/SmdTpl_gen.vo'] if ok2 else [])
                      + (['Gen/ScenesImg_gen.vo'] if ok3 else []) + (['Gen/TextFields_gen.vo'] if ok4 else [])
-                     + (['Gen/ChoreoBin_gen.vo'] if ok5 else []) + (['Gen/KeyTables_gen.vo'] if ok6 else []))
+                     + (['Gen/ChoreoBin_gen.vo'] if ok5 else []) + (['Gen/KeyTables_gen.vo'] if ok6 else []) + (['Gen/QuantSites_gen.vo'] if ok7 else []))
     lap('translate+build')
     finish_theorems = theorems_async(ck, 'Props/C20.v') if built else None
     # the correspondences are generators: they build their cases (Python, consuming ck.rng in a fixed order), yield the Coq jobs, and
@@ -1776,6 +1901,14 @@ def run(ck: Ck) -> None:
         m_imps += IMP_KT
         m_what.append('the keyed tables of the writers (dict / set / find_or_insert keys incl. __eq__ / __hash__ of the key class)')
         m_obs.update(key_table_obligations(ck.extra.get('translated', {}).get('KeyTables_gen', {})))
+    if built and ok7:
+        m_imps += ['SV.Gen.QuantSites_gen']
+        m_what.append('the quantised fields of binary choreo scenes')
+        m_obs.update({
+            'vcd_binary_every_quantised_field_value_is_read_and_written_back_as_itself': 'cq_all_sites_stable',
+            'vcd_binary_quantisation_factor_same_on_both_sides': 'cq_factors_agree',
+            'vcd_binary_quantisation_census_nonempty': 'cq_census_size_ok',
+        })
     if m_obs:
         tie(ck.instance_obligations(list(dict.fromkeys(m_imps)), m_obs, name='tpl'), ' / '.join(m_what))
     lap('instance-smd+text+choreo-bin')
@@ -1787,6 +1920,8 @@ def run(ck: Ck) -> None:
     lap('gen-snd-stacks+vmt-quote+line-census')
     if built and ok5:
         launch(corr_choreo_bin(ck))
+    if built and ok7:
+        launch(corr_quant(ck))
     lap('gen-choreo-bin')
     if built:
         launch(corr_smd_number(ck))
@@ -1854,6 +1989,8 @@ def run(ck: Ck) -> None:
         ck.explain('instance:vcd_binary_')
         ck.explain('translate:ChoreoBin_gen')
         ck.explain('correspondence:vcd-binary-layout')
+        ck.explain('correspondence:vcd-binary-quantisation')
+        ck.explain('translate:QuantSites_gen')
     if any(k.startswith('scenes-image:summary-inconsistent') for k in keys):
         ck.explain('correspondence:scene-summary')
     for pre, ob in (('sndscript:', 'instance:sndscript_'), ('vmt:', 'instance:vmt_'), ('vcd-text:', 'instance:vcd_text_')):
@@ -1875,7 +2012,8 @@ def replay(data: dict) -> int:
     r = data['replay']
     if isinstance(r, dict) and 'spec' in r and r.get('format') in U.FORMATS:
         fmt = U.FORMATS[r['format']]
-        res = U.observer_check(fmt, r['spec']) if r.get('oracle') == 'observer' else U.roundtrip(fmt, r['spec'])
+        res = U.observer_check(fmt, r['spec']) if r.get('oracle') == 'observer' else \
+            (U.brace_balance(fmt, r['spec']) if r.get('result', [''])[0] == 'unbalanced-braces' else U.roundtrip(fmt, r['spec']))
         print('spec   :', json.dumps(r['spec'])[:2000])
         try:
             out = fmt.write(fmt.build(r['spec']))
